@@ -50,6 +50,8 @@ class LoopGuard(BaseException):
 # ----------------------------------------------------------------------------------------------
 # the property oracle: exact Liang-Barsky, written from the statement (no outcodes, no iteration)
 # ----------------------------------------------------------------------------------------------
+TIE_SCALE = 5   # once the tie is broken the failing-input search runs at this multiple of the budget (default 10; this check is slow)
+
 def lb_interval(seg, b, grow=0):
     """{t in [0,1] | On(t) inside the rectangle grown by `grow` (shrunk if negative)} as (t0,t1) or None"""
     (x1, y1), (x2, y2) = seg
